@@ -105,7 +105,9 @@ func rPatterns(level int) []rpat {
 	for _, p := range []string{"", "a|", "(?:)", `\b`, "^", "$", "(?=a)", "(?<=a)", "a(?=b)|b", `\G-`, `\Ga`} {
 		out = append(out, rpat{p, false})
 	}
-	for _, p := range []string{"(a)|(?<A>b)|-", "(?<A>a)?(b)?", "(?<A>(a)|b)+", "(a(?<A>b)?)+", "(?<A>a)(?<-A>b)(-)", "(-)?(?<A>)"} {
+	for _, p := range []string{"(a)|(?<A>b)|-", "(?<A>a)?(b)?", "(?<A>(a)|b)+", "(a(?<A>b)?)+", "(?<A>a)(?<-A>b)(-)", "(-)?(?<A>)",
+		// balancing groups whose stack keeps an older capture after the pop, more than one match per text
+		"(-)?(?<-A>b)(?<A>a)+", "(-)?(?<-A>b)(?<A>a)(?<A>a)", "(?<-A>-)(?<A>a)(?<A>b)(b)?", "(?<A>a)+(?<-A>b)(-)?", "(?<A>a)(?<A>a)(?<-A>b)(-)?", "(?:(?<A>a)|(?<-A>b))+(-)", "(?<A>a)+(?<1-A>b)", "(?<A>[ab])+(?<-A>-)(b)?"} {
 		out = append(out, rpat{p, true})
 	}
 	return out
@@ -168,7 +170,7 @@ func TestStandinReplace(t *testing.T) {
 	x := &xrun{show: factsEnvInt("STANDIN_FACTS_SHOW", 8)}
 	var texts []string
 	factsWords([]rune{'a', 'b', '-'}, maxText, func(w []rune) { texts = append(texts, string(w)) })
-	texts = append(texts, "é-a", "aé", "ébé-", "a😀b", "-é-é", "ab-ab-", "aabbaa")
+	texts = append(texts, "é-a", "aé", "ébé-", "a😀b", "-é-é", "ab-ab-", "aabbaa", "aab-aab", "aabaab-", "ab-bb-b")
 	plain := rReplacements(rTokens, level)
 	grouped := rReplacements(append(append([]rtoken(nil), rTokens[2:4]...), rGroupTokens...), level)
 	pats := rPatterns(level)
@@ -196,7 +198,7 @@ func TestStandinReplace(t *testing.T) {
 			for _, text := range texts {
 				in := []rune(text)
 				offs := rByteOffsets(text)
-				starts := []int{-1, offs[len(offs)/2], len(text)}
+				starts := []int{-1, 0, offs[len(offs)/2], len(text)}
 				if level >= 2 {
 					starts = append([]int{-1}, offs...)
 				}
